@@ -89,6 +89,31 @@ try:
         out['repeat:segments after alignment-based analyses'] = tk1 == [list(lex[k, 'tokens']) for k in sorted(lex._data)]
     except Exception as ex:  # noqa
         out['note:alignment-based repetition raised ' + type(ex).__name__] = True
+    # the scorer replaced (other seed, other settings) on an object that has already been analysed with its first scorer: the analysis
+    # with the new scorer is the one a fresh object gives for the same seed and settings
+    try:
+        def lexstat_ids(obj):
+            res = []
+            for t_ in (0.4, 0.55, 0.7):
+                obj.cluster(method='lexstat', cluster_method='upgma', threshold=t_, ref='customid', override=True)
+                res.append([obj[k, 'customid'] for k in sorted(obj._data)])
+            return res
+        fresh = LexStat(d)
+        random.seed(77)
+        fresh.get_scorer(runs=40, threshold=0.7, ratio=(1, 4), force=True)
+        ids_fresh = lexstat_ids(fresh)
+        sc_fresh = [[round(fresh.cscorer[a, b], 9) for b in chars] for a in chars]
+        hist_obj = LexStat(d)
+        random.seed(5)
+        hist_obj.get_scorer(runs=40, threshold=0.7)
+        lexstat_ids(hist_obj)
+        random.seed(77)
+        hist_obj.get_scorer(runs=40, threshold=0.7, ratio=(1, 4), force=True)
+        out['repeat:scorer recomputed on an analysed object == scorer of a fresh object (same seed and settings)'] = \
+            sc_fresh == [[round(hist_obj.cscorer[a, b], 9) for b in chars] for a in chars]
+        out['repeat:lexstat clustering after the scorer was replaced == fresh object (same seed and settings)'] = ids_fresh == lexstat_ids(hist_obj)
+    except Exception as ex:  # noqa
+        out['note:scorer replacement history raised ' + type(ex).__name__] = True
     # the other way of building the random distribution: Markov-generated pseudo-words
     try:
         random.seed(4321)
